@@ -39,13 +39,14 @@ def main():
         r = subprocess.run([os.path.join(HERE, 'mkpatch.py'), patch] + args, stdout=subprocess.PIPE, stderr=subprocess.STDOUT, text=True)
         if r.returncode != 0:
             print('%-40s PATCH-ERROR %s' % (id, r.stdout.strip())); bad += 1; continue
-        run_props = props if props else ALL_PROPS
+        group = props == ['CDD']
+        run_props = (DD_PROPS if group else props) if props else ALL_PROPS
         r = subprocess.run([os.path.join(HERE, 'mut.sh'), patch, '--'] + run_props, stdout=subprocess.PIPE, stderr=subprocess.STDOUT, text=True)
         fired = sorted(set(l.split('property=')[1].split()[0] for l in r.stdout.splitlines() if l.startswith('VIOLATION')))
         if 'DOES NOT APPLY' in r.stdout or 'extraction failed' in r.stdout:
             print('%-40s BUILD/APPLY-ERROR' % id); bad += 1; print(r.stdout[-800:]); continue
         if props:
-            missing = [p for p in props if p not in fired]
+            missing = ([] if fired else ['any']) if group else [p for p in props if p not in fired]
             status = 'ok  ' if not missing else 'MISS'
             if missing: bad += 1
             print('%-40s %s expected %s fired %s' % (id, status, props, fired))
@@ -59,6 +60,9 @@ def main():
                 print('\n'.join(l for l in r.stdout.splitlines() if 'rule ' in l)[:1500])
     print('problems:', bad)
 
-ALL_PROPS = ['C01', 'C02', 'C03', 'C04', 'C05', 'C14', 'C19', 'CDD']
+sys.path.insert(0, os.path.join(HERE, '..', 'engine', 'py'))
+from ddoverif import props as _P
+ALL_PROPS = sorted(_P.PROPS)
+DD_PROPS = [p for p in ['C01', 'C02', 'C06', 'C07', 'C08', 'C09', 'C10', 'C12', 'C13', 'C15', 'C20'] if p in _P.PROPS]
 if __name__ == '__main__':
     main()
